@@ -47,6 +47,9 @@ FORMATS = [
     ('classic', '%(lineno)x %(process)d %(thread)s %(funcName)s'), ('classic', '%(nosuch)s'),
     ('classic', '%s'), ('classic', '%(message)'), ('classic', 'plain %% text'), ('classic', '%(levelno)s'),
     ('classic', '%(name)r\\n%(module)s\\t%(filename)s'),
+    # a backslash directly in front of a documented escape, and escapes next to each other
+    ('classic', '%(name)s>\\\\n%(message)s'), ('format', '{name}>\\\\t{message}'), ('template', 'D:\\\\new\\\\${name}\\\\\\n'),
+    ('classic', '%(message)s\\n\\n\\t\\\\'), ('format', '{message}\\r\\\\b\\f'), ('safe-template', '$message\\\\\\\\n'),
     ('format', '{message}'), ('format', '{levelno:d} {levelname!r} {name:>10}'), ('format', '{msecs:03.0f}'),
     ('format', '{nosuch}'), ('format', '{}'), ('format', '{0}'), ('format', '{message'), ('format', '{{}} {asctime}'),
     ('template', '${message}'), ('template', '$levelname $name'), ('template', '$nosuch'), ('template', '$$ $message'),
